@@ -309,6 +309,82 @@ func EqDoc() map[string]interface{} {
 	}
 }
 
+type Item struct {
+	X    int
+	Y    string
+	Tags []string
+	M    map[string]interface{}
+	P    *int
+	hid  int
+}
+
+type (
+	NItems   []Item
+	NItemMap map[string]Item
+)
+
+// Conts are the containers handed to Filter.Execute (and a few things that are not containers).
+func Conts() []Doc {
+	i1, i2, i3 := Item{X: 1, Y: "a", Tags: []string{"t"}, M: map[string]interface{}{"k": 1}, P: ip(1), hid: 1}, Item{X: 2, Y: "b", hid: 2}, Item{X: 1, Y: "c", M: map[string]interface{}{"k": "s"}, hid: 3}
+	bad := map[string]interface{}{"X": "notanumber", "Y": 5}
+	return []Doc{
+		{"items", []Item{i1, i2, i3}},
+		{"items-dup", []Item{i1, i1, i2, i1}},
+		{"items-empty", []Item{}},
+		{"items-nil", []Item(nil)},
+		{"nitems", NItems{i2, i1}},
+		{"arr", [3]Item{i1, i2, i3}},
+		{"arr0", [0]Item{}},
+		{"pitems", []*Item{&i1, nil, &i3}},
+		{"ifaces", []interface{}{i1, map[string]interface{}{"X": 1, "Y": "m"}, map[string]interface{}{"X": 2}, &i2}},
+		{"ifaces-err", []interface{}{i1, 5, i3}},
+		{"ifaces-nil", []interface{}{i1, nil}},
+		{"maps", []map[string]interface{}{{"X": 1, "Y": "a"}, {"X": 2}, {"Y": "a"}, {"X": 1}}},
+		{"maps-err-mid", []map[string]interface{}{{"X": 1, "Y": "a"}, bad, {"X": 1, "Y": "z"}}},
+		{"maps-err-first", []map[string]interface{}{bad, {"X": 1, "Y": "a"}}},
+		{"maps-err-last", []map[string]interface{}{{"X": 1, "Y": "a"}, {"X": 2, "Y": "a"}, bad}},
+		{"smap", map[string]Item{"one": i1, "two": i2, "three": i3}},
+		{"nsmap", NItemMap{"one": i1, "two": i2}},
+		{"imap", map[int]Item{1: i1, 2: i2, -3: i3}},
+		{"nkmap", map[NString]Item{"x": i1, "y": i3}},
+		{"ifmap", map[interface{}]interface{}{"a": i1, 2: i2, true: map[string]interface{}{"X": 1}}},
+		{"map-err", map[string]interface{}{"a": i1, "b": 5}},
+		{"emap", map[string]Item{}},
+		{"nilmap", map[string]Item(nil)},
+		{"ints", []int{1, 2, 3}},
+		{"strs", []string{"a", "b"}},
+		{"nil", nil},
+		{"int", 5},
+		{"str", "abc"},
+		{"struct", i1},
+		{"ptr-slice", &[]Item{i1}},
+		{"chan", make(chan int)},
+	}
+}
+
+// Maps holds maps of 2..8 entries whose element outcomes mix true / false / error under typical bodies.
+func Maps() map[string]interface{} {
+	ok := func(v int) map[string]interface{} { return map[string]interface{}{"V": v} }
+	er := map[string]interface{}{"V": []int{1}}
+	return map[string]interface{}{
+		"m2":   map[string]interface{}{"a": ok(1), "b": er},
+		"m2b":  map[string]interface{}{"a": er, "b": ok(2)},
+		"m3":   map[string]interface{}{"a": ok(1), "b": er, "c": ok(2)},
+		"m3b":  map[string]interface{}{"a": ok(2), "b": ok(1), "c": er},
+		"m4":   map[string]interface{}{"a": ok(1), "b": ok(2), "c": er, "d": ok(2)},
+		"m5":   map[string]interface{}{"e1": ok(1), "e2": er, "e3": ok(2), "e4": 5, "e5": ok(1)},
+		"m8":   map[string]interface{}{"k1": ok(1), "k2": ok(1), "k3": ok(2), "k4": er, "k5": ok(1), "k6": 7, "k7": ok(2), "k8": ok(1)},
+		"ok3":  map[string]interface{}{"a": ok(1), "b": ok(2), "c": ok(1)},
+		"mm":   map[string]map[string]interface{}{"r1": {"c1": ok(1), "c2": er}, "r2": {"c1": ok(2), "c2": ok(2), "c3": er}},
+		"ms":   map[string]string{"a": "x", "b": "y", "c": "z"},
+		"mi":   map[string]int{"one": 1, "two": 2, "three": 3},
+		"mix":  map[string]interface{}{"a": 1, "b": "s", "c": []int{1}, "d": nil},
+		"keys": map[string]interface{}{"b": 1, "a": 2, "c": 3},
+		"l":    []interface{}{map[string]interface{}{"a": ok(1), "b": er}, map[string]interface{}{"a": er, "b": ok(2)}},
+		"top":  5,
+	}
+}
+
 type Doc struct {
 	Name string
 	V    interface{}
@@ -341,6 +417,10 @@ func World(name string) []Doc {
 		return secretPair(NewTagged3("bee", "jay", "s3cr3t"), NewTagged3("bee", "jay", "0ther"), "sp")
 	case "absent":
 		return []Doc{{"absent", Absent()}}
+	case "conts":
+		return Conts()
+	case "maps":
+		return []Doc{{"maps", Maps()}}
 	case "eq":
 		return []Doc{{"eq", EqDoc()}}
 	}
